@@ -333,6 +333,44 @@ func TestC01(t *testing.T) {
 			}
 		}
 	})
+	// a mutation that its owner refuses: a sub-view whose slot in the parent is gone (the parent
+	// was popped) is written to - the parent's hook fails - and used again afterwards: the
+	// refused mutation leaves it the value it had, with the root of that value
+	withCfg("sha", func(h tree.HashFn) {
+		gs := &gen{r: newRng(112), noBool: true, maxElem: 6}
+		inners := []*Ty{
+			{Kind: "list", Elem: &Ty{Kind: "u", N: 1}, N: 40}, {Kind: "list", Elem: &Ty{Kind: "u", N: 8}, N: 9},
+			{Kind: "bitlist", N: 300}, {Kind: "list", Elem: &Ty{Kind: "cont", Fields: []*Ty{{Kind: "u", N: 2}, {Kind: "u", N: 2}}}, N: 6},
+		}
+		rounds := 5
+		if thorough() {
+			rounds = 60
+		}
+		for _, in := range inners {
+			et := in.Elem
+			if in.Kind == "bitlist" {
+				et = &Ty{Kind: "bool"}
+			}
+			outer := &Ty{Kind: "list", Elem: in, N: 4}
+			for k := 0; k < rounds; k++ {
+				v := &Val{Kind: "seq", Seq: []*Val{gs.val(in), gs.val(in)}}
+				lit := func() srcSpec { return srcSpec{kind: "lit", t: et, v: gs.val(et)} }
+				ops := []hop{{kind: "get", h: 0, i: 1}, {kind: "htr", h: 1}, {kind: "pop", h: 0}, {kind: "append", h: 1, src: lit()},
+					{kind: "htr", h: 1}, {kind: "len", h: 1}, {kind: "ser", h: 1}, {kind: "pop", h: 1}, {kind: "htr", h: 1}, {kind: "copy", h: 1}, {kind: "htr", h: 2},
+					{kind: "append", h: 2, src: lit()}, {kind: "htr", h: 2}, {kind: "ser", h: 2}, {kind: "htr", h: 0}, {kind: "ser", h: 0}}
+				if k%2 == 1 {
+					ops[3], ops[7] = ops[7], ops[3]
+				}
+				s := &hstate{h: h, count: &hashCalls}
+				root, err := buildView(outer, v)
+				if err != nil {
+					continue
+				}
+				s.push(outer, root)
+				histCase(out, "stale", "sha", outer, v, "ctor", ops, runScript(s, ops))
+			}
+		}
+	})
 	if out.n == 0 {
 		t.Fatal("no cases")
 	}
